@@ -395,7 +395,7 @@ Lemma bstep_inv12 st op st' U : bstep st op = Ok st' -> inv12 st U -> hash_inj (
   /\ isnil (redeemer_list st') = isnil (redeemer_list st) && isnone (op_rdm op).
 Proof.
   intros Hs I Hi. rewrite !nr_spec.
-  destruct op as [u|u src d r|src r|src r|src r|c|d]; cbn [bstep] in Hs.
+  destruct op as [u|u src d r|src r|src r|src r|c|d|cu|ru|d]; cbn [bstep] in Hs.
   - inversion Hs; subst; clear Hs. unfold opscripts. cbn. rewrite app_nil_r, andb_true_r.
     split; [|reflexivity]. destruct I as [Q1 Q2]. constructor; auto.
   - apply asi_inv12 in Hs. destruct Hs as [s [Eo [Hh [E1 [E2 [E3 [E4 [E5 Hr]]]]]]]].
@@ -470,6 +470,12 @@ Proof.
       inversion Ep; reflexivity. }
     rewrite Hr.
     destruct (isnone r), (isnil (b_in_rdm st)), (has_rdm (b_mint st)), (has_rdm (b_wdrl st)), (has_rdm (b_cert st)); reflexivity.
+  - inversion Hs; subst; clear Hs. unfold opscripts. cbn. rewrite app_nil_r, andb_true_r.
+    split; [|reflexivity]. destruct I as [Q1 Q2]. constructor; auto.
+  - inversion Hs; subst; clear Hs. unfold opscripts. cbn. rewrite app_nil_r, andb_true_r.
+    split; [|reflexivity]. destruct I as [Q1 Q2]. constructor; auto.
+  - inversion Hs; subst; clear Hs. unfold opscripts. cbn. rewrite app_nil_r, andb_true_r.
+    split; [|reflexivity]. destruct I as [Q1 Q2]. constructor; auto.
   - inversion Hs; subst; clear Hs. unfold opscripts. cbn. rewrite app_nil_r, andb_true_r.
     split; [|reflexivity]. destruct I as [Q1 Q2]. constructor; auto.
   - inversion Hs; subst; clear Hs. unfold opscripts. cbn. rewrite app_nil_r, andb_true_r.
